@@ -453,8 +453,256 @@ static int do_new (int n, char **w)
   return 0;
 }
 
-/* ------------------------------------------------------------------ TURN client ops (C16) */
-static void turn_op (int n, char **w) { puts ("bad-op"); }
+/* ------------------------------------------------------------------ TURN client ops (C16)
+ *   turn new <draft9|rfc5766|google|msn|oc2007> <base reliable 0|1>
+ *   turn send <peer> <hex>[,<hex>...]   /  turn sendr ...      socket_send_messages(_reliable) to peer <peer>
+ *   turn setpeer <peer>                 nice_udp_turn_socket_set_peer (ChannelBind)
+ *   turn dgram <hex>                    one datagram from the TURN server address; recv_messages with an
+ *                                       exactly sized buffer (ASan sees any read past the packet)
+ *   turn from <peer> <hex>              one datagram whose source is peer <peer> (not the server)
+ *   turn reply <cp|cb> <seq> <ok|e401|e438|e403|e400>   answer to the seq-th CreatePermission / ChannelBind request
+ * peers: 0 = 10.1.1.1:1111  1 = 10.1.1.2:2222  2 = [2001:db8::2]:3333  3 = 10.1.1.1:1112
+ * Output: ret <r> up [<src>:<hex>,...] down [<entry>,...] state ch=[p:chan,..] cur=<p:chan|-> pend=[p,..] perm=[..] sent=[..] q=[p:n,..] frag=<n>
+ *   src = peer index, `s` for the server address, `?` otherwise
+ *   down entries: raw hex with the STUN transaction id zeroed; CreatePermission / ChannelBind requests are
+ *   printed decoded: CP(<seq>,<peer>,<auth>) / CB(<seq>,<chan>,<peer>,<auth>)                                   */
+static NiceSocket *tsock, *dbase;
+static NiceAddress tserver, tlocal, tpeers[4];
+static GQueue *dq;              /* pending datagrams: GBytes */
+static NiceAddress dfrom;       /* source of the next datagram */
+static int dreliable, tcompat;
+static uint8_t cp_tx[512][12], cb_tx[512][12]; static int cp_n, cb_n;
+static GBytes *cp_req[512], *cb_req[512];    /* the requests as sent (for authenticated replies) */
+
+static int peer_index (const NiceAddress *a)
+{
+  int i;
+  for (i = 0; i < 4; i++) if (nice_address_equal (a, &tpeers[i])) return i;
+  return -1;
+}
+static void peer_str (GString *s, const NiceAddress *a)
+{
+  int i = peer_index (a);
+  if (i >= 0) g_string_append_printf (s, "%d", i);
+  else if (nice_address_equal (a, &tserver)) g_string_append_c (s, 's');
+  else g_string_append_c (s, '?');
+}
+
+static void tdown (const uint8_t *b0, size_t n)
+{
+  uint8_t *b = g_memdup2 (b0, n ? n : 1);
+  size_t off = 0;
+  GString *e = g_string_new (NULL);
+  if (dreliable && n >= 2) { g_string_append_printf (e, "%02x%02x|", b[0], b[1]); off = 2; }   /* RFC 4571 prefix */
+  if (n - off >= 20 && (b[off] & 0xC0) == 0 && b[off + 4] == 0x21 && b[off + 5] == 0x12 && b[off + 6] == 0xA4 && b[off + 7] == 0x42) {
+    unsigned type = b[off] << 8 | b[off + 1];
+    StunMessage m; memset (&m, 0, sizeof m); m.buffer = b + off; m.buffer_len = n - off;
+    if (type == 0x0008 || type == 0x0009) {
+      union { struct sockaddr_storage st; struct sockaddr a; } sa; socklen_t sl = sizeof sa; NiceAddress pa; uint32_t ch = 0;
+      int auth = stun_message_has_attribute (&m, STUN_ATTRIBUTE_MESSAGE_INTEGRITY);
+      nice_address_init (&pa);
+      if (stun_message_find_xor_addr (&m, STUN_ATTRIBUTE_XOR_PEER_ADDRESS, &sa.st, &sl) == STUN_MESSAGE_RETURN_SUCCESS)
+        nice_address_set_from_sockaddr (&pa, &sa.a);
+      if (type == 0x0008) { if (cp_n < 512) { memcpy (cp_tx[cp_n], b + off + 8, 12); cp_req[cp_n] = g_bytes_new (b + off, n - off); }
+        g_string_append_printf (e, "CP(%d,%d,%d)", cp_n++, peer_index (&pa), auth); }
+      else { stun_message_find32 (&m, STUN_ATTRIBUTE_CHANNEL_NUMBER, &ch); if (cb_n < 512) { memcpy (cb_tx[cb_n], b + off + 8, 12); cb_req[cb_n] = g_bytes_new (b + off, n - off); }
+        g_string_append_printf (e, "CB(%d,%x,%d,%d)", cb_n++, ch >> 16, peer_index (&pa), auth); }
+      if (down_n++) g_string_append_c (down_s, ',');
+      g_string_append (down_s, e->str); g_string_free (e, TRUE); g_free (b); return;
+    }
+    {
+      /* XOR-PEER-ADDRESS of an IPv6 peer is XORed with the (random) transaction id: re-XOR so that the printed
+       * message is the one a zero transaction id would give */
+      size_t a = off + 20;
+      while (a + 4 <= n) {
+        unsigned at = b[a] << 8 | b[a + 1], al = b[a + 2] << 8 | b[a + 3];
+        if ((at == 0x0012 || at == 0x0016) && al == 20 && a + 24 <= n && b[a + 5] == 2) { int k; for (k = 0; k < 12; k++) b[a + 12 + k] ^= b[off + 8 + k]; }
+        a += 4 + ((al + 3) & ~3u);
+      }
+    }
+    memset (b + off + 8, 0, 12);
+  }
+  if (down_n++) g_string_append_c (down_s, ',');
+  g_string_append (down_s, e->str);
+  hex_append (down_s, b + off, n - off);
+  g_string_free (e, TRUE); g_free (b);
+}
+
+static gint dbase_recv (NiceSocket *sock, NiceInputMessage *msgs, guint n)
+{
+  guint i;
+  for (i = 0; i < n; i++) {
+    GBytes *d = g_queue_pop_head (dq); gsize len, k = 0; const uint8_t *p; gint j;
+    if (!d) break;
+    p = g_bytes_get_data (d, &len);
+    for (j = 0; k < len && ((msgs[i].n_buffers >= 0 && j < msgs[i].n_buffers) || (msgs[i].n_buffers < 0 && msgs[i].buffers[j].buffer)); j++) {
+      gsize l = msgs[i].buffers[j].size; if (l > len - k) l = len - k;
+      memcpy (msgs[i].buffers[j].buffer, p + k, l); k += l;
+    }
+    msgs[i].length = k;
+    if (msgs[i].from) *msgs[i].from = dfrom;
+    g_bytes_unref (d);
+  }
+  return i;
+}
+static gint dbase_send (NiceSocket *sock, const NiceAddress *to, const NiceOutputMessage *m, guint n)
+{
+  guint i;
+  for (i = 0; i < n; i++) {
+    GByteArray *a = g_byte_array_new (); gint j;
+    for (j = 0; (m[i].n_buffers >= 0 && j < m[i].n_buffers) || (m[i].n_buffers < 0 && m[i].buffers[j].buffer); j++)
+      g_byte_array_append (a, m[i].buffers[j].buffer, m[i].buffers[j].size);
+    tdown (a->data, a->len);
+    g_byte_array_unref (a);
+  }
+  return n;
+}
+static gint dbase_send_reliable (NiceSocket *sock, const NiceAddress *to, const NiceOutputMessage *m, guint n)
+{
+  if (!dreliable) return -1;      /* udp-bsd.c: reliable sends are not supported on UDP */
+  return dbase_send (sock, to, m, n);
+}
+static gboolean dbase_is_reliable (NiceSocket *s) { return dreliable; }
+static void dbase_close (NiceSocket *s) { dbase = NULL; }
+
+static void turn_teardown (void)
+{
+  if (tsock) { nice_socket_free (tsock); tsock = NULL; }
+  if (dbase) { nice_socket_free (dbase); dbase = NULL; }
+  if (dq) { g_queue_free_full (dq, (GDestroyNotify) g_bytes_unref); dq = NULL; }
+  cp_n = cb_n = 0;
+}
+
+static void turn_state (void)
+{
+  UdpTurnPriv *p = tsock->priv; GList *l; int k, i;
+  GString *s = g_string_new ("ch=[");
+  for (k = 0, l = p->channels; l; l = l->next) { ChannelBinding *b = l->data;
+    g_string_append_printf (s, "%s%d:%x", k++ ? "," : "", peer_index (&b->peer), b->channel); }
+  g_string_append (s, "] cur=");
+  if (p->current_binding) g_string_append_printf (s, "%d:%x", peer_index (&p->current_binding->peer), p->current_binding->channel);
+  else g_string_append_c (s, '-');
+  g_string_append_printf (s, "/%d pend=[", p->current_binding_msg != NULL);
+  for (k = 0, l = p->pending_bindings; l; l = l->next) g_string_append_printf (s, "%s%d", k++ ? "," : "", peer_index (l->data));
+  g_string_append (s, "] perm=[");
+  for (k = 0, l = p->permissions; l; l = l->next) g_string_append_printf (s, "%s%d", k++ ? "," : "", peer_index (l->data));
+  g_string_append (s, "] sent=[");
+  for (k = 0, l = p->sent_permissions; l; l = l->next) g_string_append_printf (s, "%s%d", k++ ? "," : "", peer_index (l->data));
+  g_string_append_printf (s, "] pp=%u q=[", g_list_length (p->pending_permissions));
+  for (k = 0, i = 0; i < 4; i++) { GQueue *q = g_hash_table_lookup (p->send_data_queues, &tpeers[i]);
+    if (q) g_string_append_printf (s, "%s%d:%u", k++ ? "," : "", i, g_queue_get_length (q)); }
+  g_string_append_printf (s, "] frag=%d", p->fragment_buffer ? (int) p->fragment_buffer->len : -1);
+  printf ("ret %s up [%s] down [%s] state %s\n", ret_n ? ret_s->str : "-", up_s->str, down_s->str, s->str);
+  g_string_free (s, TRUE);
+}
+
+static void turn_deliver (const uint8_t *b, size_t n, const NiceAddress *from)
+{
+  size_t cap = n ? n : 1; uint8_t *buf = malloc (cap); GInputVector v = { buf, n }; NiceAddress fr; NiceInputMessage m = { &v, 1, &fr, 0 };
+  gint r;
+  nice_address_init (&fr);
+  dfrom = *from;
+  g_queue_push_tail (dq, g_bytes_new (b, n));
+  r = nice_socket_recv_messages (tsock, &m, 1);
+  add_ret (r);
+  if (r >= 1) {
+    GString *t = g_string_new (NULL); peer_str (t, &fr);
+    if (up_n++) g_string_append_c (up_s, ',');
+    g_string_append_printf (up_s, "%s:", t->str); hex_append (up_s, buf, m.length); g_string_free (t, TRUE);
+  }
+  free (buf);
+}
+
+static bool srv_validater (StunAgent *agent, StunMessage *message, uint8_t *username, uint16_t username_len,
+    uint8_t **password, size_t *password_len, void *user_data)
+{
+  static uint8_t pw[] = "pass";
+  *password = pw; *password_len = 4;
+  return true;
+}
+
+static void turn_op (int n, char **w)
+{
+  if (n >= 4 && !strcmp (w[1], "new")) {
+    int c = !strcmp (w[2], "draft9") ? NICE_TURN_SOCKET_COMPATIBILITY_DRAFT9 : !strcmp (w[2], "google") ? NICE_TURN_SOCKET_COMPATIBILITY_GOOGLE :
+            !strcmp (w[2], "msn") ? NICE_TURN_SOCKET_COMPATIBILITY_MSN : !strcmp (w[2], "oc2007") ? NICE_TURN_SOCKET_COMPATIBILITY_OC2007 :
+            !strcmp (w[2], "rfc5766") ? NICE_TURN_SOCKET_COMPATIBILITY_RFC5766 : -1;
+    static const char *pa[4] = { "10.1.1.1", "10.1.1.2", "2001:db8::2", "10.1.1.1" }; static const int pp[4] = { 1111, 2222, 3333, 1112 };
+    int i;
+    if (c < 0) { puts ("bad-op"); return; }
+    teardown (); turn_teardown ();
+    layer = L_TURN; tcompat = c; dreliable = atoi (w[3]);
+    nice_address_init (&tserver); nice_address_set_from_string (&tserver, "10.9.9.9"); nice_address_set_port (&tserver, 3478);
+    nice_address_init (&tlocal); nice_address_set_from_string (&tlocal, "10.0.0.1"); nice_address_set_port (&tlocal, 40000);
+    for (i = 0; i < 4; i++) { nice_address_init (&tpeers[i]); nice_address_set_from_string (&tpeers[i], pa[i]); nice_address_set_port (&tpeers[i], pp[i]); }
+    dq = g_queue_new ();
+    dbase = g_slice_new0 (NiceSocket);
+    dbase->type = dreliable ? NICE_SOCKET_TYPE_UDP_TURN_OVER_TCP : NICE_SOCKET_TYPE_UDP_BSD; dbase->addr = tlocal;
+    dbase->recv_messages = dbase_recv; dbase->send_messages = dbase_send; dbase->send_messages_reliable = dbase_send_reliable;
+    dbase->is_reliable = dbase_is_reliable; dbase->close = dbase_close;
+    if (!ctx) ctx = g_main_context_new ();
+    tsock = nice_udp_turn_socket_new (ctx, &tlocal, dbase, &tserver, "user", "pass", c);
+    add_ret (0); turn_state (); return;
+  }
+  if (!tsock) { puts ("bad-op"); return; }
+  if ((!strcmp (w[1], "send") || !strcmp (w[1], "sendr")) && n == 4) {
+    GOutputVector v[64]; NiceOutputMessage m; int pi = atoi (w[2]), nb = parse_bufs (w[3], v, 64), i; long r;
+    if (nb <= 0 || pi < 0 || pi > 3) { puts ("bad-op"); return; }
+    m.buffers = v; m.n_buffers = nb;
+    r = !strcmp (w[1], "send") ? nice_socket_send_messages (tsock, &tpeers[pi], &m, 1) : nice_socket_send_messages_reliable (tsock, &tpeers[pi], &m, 1);
+    add_ret (r);
+    for (i = 0; i < nb; i++) free ((void *) v[i].buffer);
+    turn_state ();
+  } else if (!strcmp (w[1], "setpeer") && n == 3) {
+    int pi = atoi (w[2]); if (pi < 0 || pi > 3) { puts ("bad-op"); return; }
+    add_ret (nice_udp_turn_socket_set_peer (tsock, &tpeers[pi])); turn_state ();
+  } else if (!strcmp (w[1], "dgram") && n == 3) {
+    uint8_t *b; long l = parse_hex (w[2], &b); if (l < 0) { puts ("bad-op"); return; }
+    turn_deliver (b, l, &tserver); free (b); turn_state ();
+  } else if (!strcmp (w[1], "from") && n == 4) {
+    uint8_t *b; long l = parse_hex (w[3], &b); int pi = atoi (w[2]); if (l < 0 || pi < 0 || pi > 3) { puts ("bad-op"); return; }
+    turn_deliver (b, l, &tpeers[pi]); free (b); turn_state ();
+  } else if (!strcmp (w[1], "reply") && n == 5) {
+    int cp = !strcmp (w[2], "cp"), seq = atoi (w[3]), code = 0; uint8_t m[128]; size_t len = 20; unsigned type;
+    uint8_t *tx = cp ? cp_tx[seq] : cb_tx[seq];
+    if (seq < 0 || seq >= (cp ? cp_n : cb_n) || seq >= 512) { puts ("bad-op"); return; }
+    if (w[4][0] == 'e') code = atoi (w[4] + 1); else if (strcmp (w[4], "ok")) { puts ("bad-op"); return; }
+    type = (cp ? 0x0008 : 0x0009) | (code ? 0x0110 : 0x0100);
+    memset (m, 0, sizeof m);
+    {
+      /* authenticated request: let a server-side StunAgent (libnice's own) validate it and build the answer with
+       * MESSAGE-INTEGRITY over the long-term key */
+      GBytes *rq = cp ? cp_req[seq] : cb_req[seq]; gsize rl; const uint8_t *rb = g_bytes_get_data (rq, &rl);
+      StunMessage rqm; memset (&rqm, 0, sizeof rqm); rqm.buffer = (uint8_t *) rb; rqm.buffer_len = rl;
+      if (!code && stun_message_has_attribute (&rqm, STUN_ATTRIBUTE_MESSAGE_INTEGRITY)) {
+        StunAgent srv; StunMessage req, resp; static uint8_t rbuf[2048];
+        stun_agent_init (&srv, STUN_ALL_KNOWN_ATTRIBUTES, STUN_COMPATIBILITY_RFC5389, STUN_AGENT_USAGE_LONG_TERM_CREDENTIALS);
+        memcpy (rbuf, rb, rl);
+        if (stun_agent_validate (&srv, &req, rbuf, rl, srv_validater, NULL) == STUN_VALIDATION_SUCCESS &&
+            stun_agent_init_response (&srv, &resp, m, sizeof m, &req)) {
+          len = stun_agent_finish_message (&srv, &resp, NULL, 0);
+          if (dreliable) { uint8_t f[160]; f[0] = len >> 8; f[1] = len & 0xff; memcpy (f + 2, m, len); turn_deliver (f, len + 2, &tserver); }
+          else turn_deliver (m, len, &tserver);
+          turn_state (); return;
+        }
+        memset (m, 0, sizeof m); len = 20;
+      }
+    }
+    m[0] = type >> 8; m[1] = type & 0xff; m[4] = 0x21; m[5] = 0x12; m[6] = 0xA4; m[7] = 0x42; memcpy (m + 8, tx, 12);
+    if (code) {
+      /* ERROR-CODE, and for 401/438 REALM "realm" + NONCE "nonce" */
+      m[len++] = 0; m[len++] = 9; m[len++] = 0; m[len++] = 4; m[len++] = 0; m[len++] = 0; m[len++] = code / 100; m[len++] = code % 100;
+      if (code == 401 || code == 438) {
+        static const uint8_t rn[] = { 0, 0x14, 0, 5, 'r', 'e', 'a', 'l', 'm', 0, 0, 0, 0, 0x15, 0, 5, 'n', 'o', 'n', 'c', 'e', 0, 0, 0 };
+        memcpy (m + len, rn, sizeof rn); len += sizeof rn;
+      }
+    }
+    m[2] = (len - 20) >> 8; m[3] = (len - 20) & 0xff;
+    if (dreliable) { uint8_t f[160]; f[0] = len >> 8; f[1] = len & 0xff; memcpy (f + 2, m, len); turn_deliver (f, len + 2, &tserver); }
+    else turn_deliver (m, len, &tserver);
+    turn_state ();
+  } else puts ("bad-op");
+}
 
 int main (void)
 {
@@ -468,7 +716,7 @@ int main (void)
     n = split_words (line, w);
     if (n == 0) continue;
     out_reset ();
-    if (!strcmp (w[0], "reset") && n == 1) { teardown (); use_real_base = 0; puts ("reset"); continue; }
+    if (!strcmp (w[0], "reset") && n == 1) { turn_teardown (); teardown (); use_real_base = 0; puts ("reset"); continue; }
     if (!strcmp (w[0], "turn")) { turn_op (n, w); continue; }
     if (strcmp (w[0], "sock") || n < 2) { puts ("bad-op"); continue; }
     if (!strcmp (w[1], "base") && n == 3) {
